@@ -207,8 +207,27 @@ PROPS = {"C11": c11, "C12": c12, "C13": c13, "C14": c14, "C15": c15, "C17": c17,
 
 # =========================================================================== e2e
 
+def regroup(raw, out):
+    """Events of concurrently executed scenarios are interleaved in the log: group them
+    per scenario, each in its own (global sequence number) order."""
+    groups = {}
+    order = []
+    with open(raw) as f:
+        for line in f:
+            e = json.loads(line)
+            k = e.get("scn", "")
+            if k not in groups:
+                groups[k] = []
+                order.append(k)
+            groups[k].append((e.get("seq", 0), line))
+    with open(out, "w") as g:
+        for k in order:
+            for _, line in sorted(groups[k], key=lambda x: x[0]):
+                g.write(line)
+
+
 def e2e_check(pid, tier, scenarios, trace_spec, corrupt, note, mc_cfgs=(), threads=2,
-              case_of=None, extra_cov=None, runs=1):
+              case_of=None, extra_cov=None, runs=1, par=1, mc_results=()):
     """End-to-end procedure: model-check the property's model, run the scenarios against
     the real endpoints, validate every scenario history with the property's trace spec."""
     import scen  # noqa: F401
@@ -226,6 +245,10 @@ def e2e_check(pid, tier, scenarios, trace_spec, corrupt, note, mc_cfgs=(), threa
         cov["transitions"] += r["generated"]
         if not r["ok"]:
             raise vlib.ToolError("model %s/%s violated" % (spec, cfg))
+    for r in mc_results:
+        cov["model_checking"].append(r)
+        cov["states"] += r["distinct"]
+        cov["transitions"] += r["generated"]
     wd = vlib.workdir(pid)
     try:
         binary = vlib.build_harness("debug")
@@ -236,9 +259,11 @@ def e2e_check(pid, tier, scenarios, trace_spec, corrupt, note, mc_cfgs=(), threa
         by_name = {s["scn"]: s for s in scenarios}
         for run in range(runs):
             trace = os.path.join(wd, "trace%d.ndjson" % run)
+            raw = os.path.join(wd, "raw%d.ndjson" % run)
             th = threads if run == 0 else 1
-            vlib.run_harness(binary, ["e2e", "--scenarios", scn_path, "--out", trace,
-                                      "--threads", str(th)], timeout=3000)
+            vlib.run_harness(binary, ["e2e", "--scenarios", scn_path, "--out", raw,
+                                      "--threads", str(th), "--par", str(par)], timeout=3000)
+            regroup(raw, trace)
             total, mism, states = vlib.tlc_validate(trace, "%s-e2e%d" % (pid, run), spec=trace_spec,
                                                     cfg="E2E.cfg", chunk_lines=10**9, parallel=1)
             cov["traces_validated_against_impl"] += len(scenarios)
@@ -328,7 +353,7 @@ def c04(tier):
         ["termination styles x codes x reasons x life-cycle points x roles against a raw QUIC peer; "
          "expected cause computed by Session!SessionOutcome from the bytes the peer actually wrote",
          "a capsule is carried in one DATA frame; steps are separated by 30-200 ms barriers"],
-        mc_cfgs=[("WireMC.tla", "WireMC_quick.cfg")])
+        mc_cfgs=[("WireMC.tla", "WireMC_quick.cfg")], par=6, threads=4)
 
 
 PROPS["C04"] = c04
@@ -354,7 +379,8 @@ def c01(tier):
          "2..40 concurrent streams between two wtransport endpoints; raw peer writing preambles (shortest "
          "and non-shortest varints) cut at every position with 25 ms gaps; streams the endpoint opens recorded byte for byte by the raw peer",
          "session id is 0 on a fresh connection (larger ids covered at the sans-IO layer)"],
-        mc_cfgs=[("StreamPipeMC.tla", "StreamPipe_%s.cfg" % tier)], runs=2 if tier == "thorough" else 1)
+        mc_cfgs=[("StreamPipeMC.tla", "StreamPipe_%s.cfg" % tier)], runs=2 if tier == "thorough" else 1,
+        par=4, threads=4)
 
 
 PROPS["C01"] = c01
@@ -377,7 +403,7 @@ def c02(tier):
          "DNS resolver; explicit, default-443 and absent ports; paths and queries), header sets by QPACK class "
          "(static name+value, name-only, literal; Huffman-shrinking or not; lengths across prefix boundaries), "
          "5 server decisions, extra response fields; two real wtransport endpoints on loopback"],
-        mc_cfgs=[("WireMC.tla", "WireMC_quick.cfg")])
+        mc_cfgs=[("WireMC.tla", "WireMC_quick.cfg")], par=8, threads=4)
 
 
 PROPS["C02"] = c02
@@ -407,3 +433,50 @@ def c03(tier):
 
 
 PROPS["C03"] = c03
+
+
+def tlc_scripts(spec, cfg, name):
+    """Runs a generator spec; returns (scripts, mc_result). Scripts are the distinct JSON
+    values printed as <<"SCN", "...">>; the run also model-checks the spec's invariants."""
+    r = vlib.tlc_mc(spec, cfg, name, workers=1)
+    if not r["ok"]:
+        raise vlib.ToolError("generator model %s/%s violated its invariants" % (spec, cfg))
+    seen, scripts = set(), []
+    for t in vlib.tlc_prints(r["out"], "SCN"):
+        t = t.strip()
+        if t.startswith('"') and t.endswith('"'):
+            t = json.loads(t)
+        if t not in seen:
+            seen.add(t)
+            scripts.append(json.loads(t))
+    res = {"spec": spec, "cfg": cfg, "ok": True, "generated": r["generated"],
+           "distinct": r["distinct"], "wall_s": r["wall_s"], "scripts": len(scripts)}
+    return scripts, res
+
+
+def _corrupt_c06(events):
+    ev = json.loads(json.dumps(events))
+    for e in ev:
+        if e.get("ev") == "op_done" and e.get("op") == "read" and isinstance(e.get("end"), dict):
+            if e["end"].get("k") == "err" and e["end"]["err"].get("k") == "Reset":
+                e["end"]["err"]["code"] = [e["end"]["err"]["code"][0], e["end"]["err"]["code"][1] ^ 1]
+                return ev
+            if e["end"].get("k") == "fin":
+                e["end"] = {"k": "timeout"}
+                return ev
+    return None
+
+
+def c06(tier):
+    import scen
+    scripts, mcres = tlc_scripts("StreamLifeMC.tla", "StreamLifeGen_%s.cfg" % tier, "C06-gen")
+    return e2e_check(
+        "C06", tier, scen.c06(tier, vlib.seed(), scripts), "C06Trace.tla", _corrupt_c06,
+        ["every operation history of depth 3 (4 in thorough) over {write, finish, reset(c), stopped, read-to-end, stop(c)} "
+         "enumerated by TLC from StreamLifeGen and replayed on two real wtransport endpoints with 40 ms barriers; "
+         "codes cycle through every varint-length boundary up to 2^62-1; 4 stream roles and both directions of bidirectional streams",
+         "results of races are not explored: every step is settled before the next one"],
+        mc_results=[mcres], par=16, threads=4, extra_cov={"exhaustive": True})
+
+
+PROPS["C06"] = c06
